@@ -117,15 +117,20 @@ def _gen_vars(rng, kinds, max_vars, extra_pool, *, allow_perm=True, name_pool=No
                 fillv = float(numpy.float32(1e20))
         else:
             fill = rng.choice([None, None, '_FillValue', 'missing_value'])
-            fillv = rng.choice([-999, -1, 32767 if dtype == 'i2' else 99999]) if fill else None
+            fillv = rng.choice([-999, -1, 0, 32767 if dtype == 'i2' else 99999]) if fill else None
             if dtype == 'i8' and fill and rng.random() < 0.5:
                 fillv = -9000000000
         perm = None
         if allow_perm and rng.random() < 0.35:
             perm = rng.random()  # seed for a permutation decided in World (deterministic)
+        pack = None
+        if dtype == 'i2' and rng.random() < 0.35:
+            # packed on disk (CF scale_factor / add_offset): the *physical* values are base + ... as for any variable
+            pack = {'scale': rng.choice([0.5, 0.25, 2.0]), 'offset': rng.choice([0.0, 10.0, -3.0])}
+            fill, fillv = '_FillValue', -32768      # packed data always names a fill value (decoded it is floating point)
         out.append({
             'name': names[vi], 'kind': kind, 'extra': [list(e) for e in extras],
-            'dtype': dtype, 'fill': fill, 'fillv': fillv, 'perm': perm,
+            'dtype': dtype, 'fill': fill, 'fillv': fillv, 'perm': perm, 'pack': pack,
             'missing_frac': rng.choice([0, 0, 0.15, 0.3]),
             'missing_seed': rng.randrange(1 << 30),
             'attrs': rng.choice([{}, {'long_name': f'var {vi}'}, {'units': 'psu', 'long_name': 'x'}]),
@@ -332,6 +337,7 @@ def gen_world(rng, *, convs=CONVS, max_n=5, max_faces=10, max_vars=5, allow_hole
     spec['vars'] = _gen_vars(rng, kinds, max_vars, extra_pool, allow_perm=allow_perm,
                              min_vars=min_vars)
     spec['materialise'] = materialise or rng.choice(['memory', 'memory', 'file', 'file_raw', 'chunked'])
+    spec['file_fill_style'] = rng.choice([None, None, 'xarray_default', 'hole_fill'])
     return spec
 
 
@@ -365,6 +371,13 @@ def add_depths(rng, spec, *, max_layers=4, n_depths=None):
             attrs['axis'] = 'Z'
         depths.append({'name': name, 'dim': dim, 'values': vals, 'attrs': attrs, 'positive': positive,
                        'order': order, 'nk': nk})
+    if rng.random() < 0.15 and not spec['conv'].startswith('shoc'):
+        # a second coordinate describing the *same* layers in the other sign convention (e.g. height next to depth)
+        d0 = depths[0]
+        other = 'up' if d0['positive'] == 'down' else 'down'
+        depths.append({'name': d0['name'] + '_alt', 'dim': d0['dim'], 'values': [-v for v in d0['values']],
+                       'attrs': {'positive': other, 'long_name': 'alternative sign convention'}, 'positive': other,
+                       'order': d0['order'], 'nk': d0['nk'], 'alias_of': d0['name']})
     spec['depths'] = depths
     spec['floor_seed'] = rng.randrange(1 << 30)
     # put variables on depth dimensions: floats, no fill attribute, no random missing cells
@@ -373,11 +386,13 @@ def add_depths(rng, spec, *, max_layers=4, n_depths=None):
         if v['kind'] is None:
             continue
         if rng.random() < 0.85 or not any_depth:
-            d = depths[vi % len(depths)] if rng.random() < 0.7 else rng.choice(depths)
+            primary = [d_ for d_ in depths if not d_.get('alias_of')]
+            d = primary[vi % len(primary)] if rng.random() < 0.7 else rng.choice(primary)
             v['depth'] = d['name']
             v['dtype'] = rng.choice(['f8', 'f4'])
             v['fill'] = None
             v['fillv'] = None
+            v['pack'] = None
             v['missing_frac'] = 0
             pos = rng.randint(0, len(v['extra']))
             v['extra'] = v['extra'][:pos] + [[d['dim'], d['nk']]] + v['extra'][pos:]
@@ -513,7 +528,11 @@ class World:
             if not self.wet_layers(v['depth'], v['kind'])[lin][self.physical_layer(v['depth'], k)]:
                 return None
         elin = int(numpy.ravel_multi_index(eidx, v['eshape'])) if v['eshape'] else 0
-        return v['base'] + variant * v['shift'] + elin * v['gsize'] + lin
+        raw = v['base'] + variant * v['shift'] + elin * v['gsize'] + lin
+        if v.get('pack'):
+            # the stored integer is `raw`; the physical value it denotes is raw * scale_factor + add_offset (exact: binary fractions)
+            return raw * v['pack']['scale'] + v['pack']['offset']
+        return raw
 
     # -- depth / sea floor ------------------------------------------------------------------
     def depth(self, name):
@@ -599,6 +618,12 @@ class World:
         dtype = _np_dtype(v['dtype'])
         missing = numpy.isnan(full)
         attrs = dict(v['attrs'])
+        if v.get('pack'):
+            # raw (undecoded) form: stored = (physical - add_offset) / scale_factor, exactly representable by construction
+            stored = numpy.round((full - v['pack']['offset']) / v['pack']['scale'])
+            attrs['scale_factor'] = numpy.float64(v['pack']['scale'])
+            attrs['add_offset'] = numpy.float64(v['pack']['offset'])
+            full = stored
         if v['fill'] is not None:
             fillv = v['fillv']
             data = numpy.where(missing, fillv, full).astype(dtype)
@@ -931,7 +956,11 @@ def shrink_world_candidates(spec):
             if v['dtype'].startswith('i'):
                 s['vars'][k]['missing_frac'] = 0
             yield s
-        if v['dtype'] != 'f8':
+        if v.get('pack'):
+            s = copy.deepcopy(spec)
+            s['vars'][k]['pack'] = None
+            yield s
+        if v['dtype'] != 'f8' and not v.get('pack'):
             s = copy.deepcopy(spec)
             s['vars'][k]['dtype'] = 'f8'
             if s['vars'][k]['fill']:
